@@ -10,7 +10,9 @@ from harness import c06scen as S
 IAC = 255
 # DO TTYPE, WILL ECHO, WILL SGA, DO NAWS, DO SGA, DONT ECHO, WONT TTYPE  (every verb, the special-cased option 3; < 10 commands)
 NEGO = bytes([255, 253, 24, 255, 251, 1, 255, 251, 3, 255, 253, 31, 255, 253, 3, 255, 254, 1, 255, 252, 24])
-NEGO_VARIANTS = [NEGO, b"", bytes([255, 253, 3]), bytes([255, 251, 3, 255, 254, 3, 255, 252, 1, 255, 253, 1])]
+# variant 4: TRANSMIT-BINARY (option 0) in both directions, option 255, NUL padding right behind a command
+NEGO_VARIANTS = [NEGO, b"", bytes([255, 253, 3]), bytes([255, 251, 3, 255, 254, 3, 255, 252, 1, 255, 253, 1]),
+                 bytes([255, 253, 0, 255, 251, 0, 255, 253, 24, 0, 255, 251, 255, 13, 0, 10])]
 
 
 class TelnetServer(threading.Thread):
@@ -283,3 +285,119 @@ def drop_pair_subprocess(drop_after=20, limit_s=25):
             es, ea = json.loads(line[6:])
             return es, ea, None
     return None, None, (p.stderr or "no result")[-300:]
+
+
+# ---------------------------------------------------------------- scripted socket / StreamReader pair rig (no sockets, no time):
+# the same recv()/read() results fed to the real TelnetTransport and the real AsynctelnetTransport
+class _RawSock:
+    def __init__(self, chunks):
+        self.chunks, self.sent = list(chunks), []
+
+    def recv(self, n):
+        return self.chunks.pop(0) if self.chunks else b""
+
+    def send(self, b):
+        self.sent.append(bytes(b))
+        return len(b)
+
+    def settimeout(self, t):
+        pass
+
+
+class _Sock:
+    def __init__(self, chunks):
+        self.sock = _RawSock(chunks)
+
+    def isalive(self):
+        return True
+
+    def __bool__(self):
+        return True
+
+    def close(self):
+        pass
+
+
+class _Reader:
+    def __init__(self, chunks):
+        self.chunks = list(chunks)
+
+    async def read(self, n):
+        return self.chunks.pop(0) if self.chunks else b""
+
+    def at_eof(self):
+        return False
+
+
+class _Writer:
+    def __init__(self):
+        self.sent = []
+
+    def write(self, b):
+        self.sent.append(bytes(b))
+
+    def close(self):
+        pass
+
+
+def _targs():
+    from scrapli.transport.base import BaseTransportArgs
+    return BaseTransportArgs(transport_options={}, host="h", port=23, timeout_socket=1, timeout_transport=0, logging_uid="")
+
+
+def scripted_pair(chunks):
+    """-> ((sync data, sync replies), (async data, async replies)); reads as long as scripted chunks remain"""
+    from scrapli.transport.plugins.asynctelnet.transport import AsynctelnetTransport
+    from scrapli.transport.plugins.asynctelnet.transport import PluginTransportArgs as PA
+    from scrapli.transport.plugins.telnet.transport import PluginTransportArgs as PS
+    from scrapli.transport.plugins.telnet.transport import TelnetTransport
+
+    def sy():
+        t = TelnetTransport(_targs(), PS())
+        t.socket = _Sock(chunks)
+        data = b""
+        try:
+            while t.socket.sock.chunks:
+                data += t.read()
+        except Exception as e:      # noqa
+            return ("EXC:" + type(e).__name__, data), b"".join(t.socket.sock.sent)
+        return data, b"".join(t.socket.sock.sent)
+
+    async def asy():
+        t = AsynctelnetTransport(_targs(), PA())
+        t.stdout, t.stdin = _Reader(chunks), _Writer()
+        data = b""
+        try:
+            while t.stdout.chunks:
+                data += await t.read()
+        except Exception as e:      # noqa
+            return ("EXC:" + type(e).__name__, data), b"".join(t.stdin.sent)
+        return data, b"".join(t.stdin.sent)
+    return sy(), asyncio.run(asy())
+
+
+def gen_stream(rng, max_cmds=10):
+    """a Telnet byte stream: data (incl. NUL, CR NUL LF) and IAC verb option commands (incl. option 0 and 255), <= max_cmds commands,
+    cut into recv() results at PRNG positions (incl. inside commands)"""
+    out = bytearray()
+    ncmd = 0
+    for _ in range(rng.randint(1, 14)):
+        r = rng.random()
+        if r < 0.45 and ncmd < max_cmds:
+            out += bytes([255, rng.choice([251, 252, 253, 254]), rng.choice([0, 0, 1, 3, 24, 31, 255, rng.randrange(256)])])
+            ncmd += 1
+        elif r < 0.6:
+            out += rng.choice([b"\r\x00\n", b"\x00", b"\x00\x00", b"a\x00b"])
+        else:
+            out += rng.choice([b"login: ", b"User Access Verification", b"\r\n", b"x", b"Password: ", b"r1#", b"\xfe\xfb"])
+    s = bytes(out)
+    n = len(s)
+    mode = rng.random()
+    if n < 2 or mode < 0.25:
+        cuts = []
+    elif mode < 0.4:
+        cuts = list(range(1, n))
+    else:
+        cuts = sorted(rng.sample(range(1, n), min(n - 1, rng.randint(1, 6))))
+    pts = [0, *cuts, n]
+    return [s[a:b] for a, b in zip(pts, pts[1:])]
